@@ -4,6 +4,7 @@
 -/
 import SplVerif.Model.Table
 import SplVerif.Spec.Typing
+import SplVerif.Spec.Grammar
 
 namespace Spl.C03
 
@@ -46,8 +47,28 @@ theorem tokenRange_bounds (toks : Array Token) (r out : Range)
         exact ⟨b, by simpa using Array.mem_of_getElem? hb, rfl⟩
       · simp at h
 
-/-- Non-vacuity of the specification: a small program with nested arrays, a reference
-    parameter and a call is well-typed; flipping the condition to an integer is not. -/
-example : True := trivial
+/-- The specification's verdict on a text: `some true` = syntactically valid and well-typed. -/
+def specVerdict (text : String) : Option Bool :=
+  match lex text.toList with
+  | .error _ => none
+  | .ok ts => (Grammar.parseAbs ts).map (fun p => Typing.wellTyped (Grammar.relativize p))
+
+/-- Number of diagnostics the model of `AnalyzedSource::new` attaches to a text. -/
+def modelDiagnostics (text : String) : Option Nat :=
+  match AnalyzedSource.new text.toList with
+  | .ok d => some d.ast.errors.length
+  | .error _ => none
+
+/-! Non-vacuity of the specification and of the model, evaluated by the kernel: a program with
+    nested arrays, a reference parameter, a call and a comparison is well-typed and gets no
+    diagnostic; with an integer as the condition it is ill-typed and gets exactly one. -/
+example : specVerdict "type m = array [2] of array [3] of int; proc f(ref a: m, i: int) { a[1][i] := i + 1; } proc main() { var x: m; if (1 < 2) f(x, 0); }" = some true := by
+  decide +kernel
+example : modelDiagnostics "type m = array [2] of array [3] of int; proc f(ref a: m, i: int) { a[1][i] := i + 1; } proc main() { var x: m; if (1 < 2) f(x, 0); }" = some 0 := by
+  decide +kernel
+example : specVerdict "type m = array [2] of array [3] of int; proc f(ref a: m, i: int) { a[1][i] := i + 1; } proc main() { var x: m; if (1 + 2) f(x, 0); }" = some false := by
+  decide +kernel
+example : modelDiagnostics "type m = array [2] of array [3] of int; proc f(ref a: m, i: int) { a[1][i] := i + 1; } proc main() { var x: m; if (1 + 2) f(x, 0); }" = some 1 := by
+  decide +kernel
 
 end Spl.C03
